@@ -20,7 +20,43 @@ import (
 	"runtime"
 	"sort"
 	"sync"
+	"sync/atomic"
+	"time"
 )
+
+// ---- timer skew -----------------------------------------------------------------------------
+//
+// The engine arms its timers with whole-second durations from instants that are often exact sums of
+// earlier timer instants. Two timers of one session can therefore fall due at exactly the same
+// simulated nanosecond, both events are ready for session.run's select at once, and Go picks at
+// random — the engine itself does not order them either. The instrumenter wraps the duration argument
+// of EventTimer's Reset and of every time.AfterFunc in the engine with Skew, which (only while a
+// simulation run has switched it on) adds a per-call pseudo-random offset below 100 microseconds,
+// derived from a counter that the harness resets at the start of every run. Exact ties disappear;
+// nothing else about the timers changes.
+
+var (
+	skewOn  atomic.Bool
+	skewCtr atomic.Uint64
+)
+
+// SkewReset switches the skew on/off and restarts its sequence (called at the start of every run).
+func SkewReset(on bool) {
+	skewOn.Store(on)
+	skewCtr.Store(0)
+}
+
+func Skew(d time.Duration) time.Duration {
+	if !skewOn.Load() || d < 0 {
+		return d
+	}
+	n := skewCtr.Add(1)
+	z := n*0x9E3779B97F4A7C15 + 0x632BE59BD9B4E019
+	z ^= z >> 31
+	z *= 0xBF58476D1CE4E5B9
+	z ^= z >> 29
+	return d + time.Duration(1+z%99991)
+}
 
 type Task struct {
 	Name    string
